@@ -240,6 +240,9 @@ def oracle(case, out):
         return 'ProcessorError.cause is %s, the step raised %s' % (out['outcome'][2], want)
     if fail['exc'] == 'cast_nested' and 'with nested errors' not in (out['outcome'][3] or ''):
         return 'ProcessorError.cause is %r, not the error the step raised (one of its nested errors took its place)' % (out['outcome'][3],)
+    if out.get('second_attempt') == 'returned':
+        return 'step %d raised %s at %r; a second attempt with the same checkpoint directory returned normally although the failure is still there' % (
+            k + 1, fail['exc'], fail['at'])
     for name, a in out['artifacts'].items():
         pos = int(''.join(ch for ch in name if ch.isdigit()))
         if pos > k + 1 and (a.get('descriptor') or a.get('committed')):
